@@ -284,6 +284,12 @@ theorem weibull_binned_fit_post {α : Type} [Num α] (h : Hist α) (st : St) (ps
     ps.getD 0 Num.zero = (if h.isRounded then h.lbound h.imin else h.xmin) :=
   weiFitBinned_post h st ps hr
 
+/-- `esl_gam_FitCompleteBinned` (moments of the bin midpoints, then ≤100 bracketing and ≤100 bisection steps on `tau_function`): total;
+    status in {eslOK, eslEINVAL, eslENOHALT}. -/
+theorem gamma_binned_fit_post {α : Type} [Num α] (h : Hist α) (st : St) (ps : Array α) (hr : gamFitCompleteBinned h = .res st ps) :
+    (st = .ok ∨ st = .einval ∨ st = .enohalt) ∧ ps.size = 3 :=
+  gamFitBinned_post h st ps hr
+
 /-- the gamma fits (`esl_gam_FitComplete`, `esl_gam_FitCountHistogram` via `gam_fitting_engine`, generalized Newton): at most 100 rounds
     (total), status in {eslOK, eslENOHALT, eslERANGE}; eslOK ⇒ `(lambda, tau) = (tau/xbar, tau)` and both stopping tests
     `esl_DCompare(old_tau, tau, 1e-6, 1e-6)`, `esl_DCompare(old_fx, fx, 1e-6, 1e-6)` held. -/
